@@ -1,5 +1,5 @@
 (* C19 — pickling a compiled function preserves its behaviour and its hashes. *)
-From Connectome Require Import Values Attrs VM Edges EdgesGen Store MemGen PickleGen Evaluator L2 HashSound SpecEq EqFacts C01Inst C04Main Total Examples Pickle PickleFacts.
+From Connectome Require Import Values Attrs VM Edges EdgesGen Store MemGen MemPickleGen PickleGen Evaluator L2 HashSound SpecEq EqFacts C01Inst C04Main Total Examples Pickle PickleFacts.
 Local Open Scope list_scope.
 
 (* The copy is the same graph over the pickled store: RAM caches empty, disk caches the same stores.  For every graph
